@@ -28,15 +28,17 @@ RULE = (
     "(unary-operation sequence, application) pairs all applied to the same projector object). Non-trivial = complex "
     "data or L != R, AND some sequence has length >= 2 or the application is a composite/right action."
 )
-ASSUMPTIONS = ["operands are dense numpy arrays or scipy sparse matrices wrapped by aslinearoperator"]
-REQUIRED_CLASSES = {"all": ["class=orthonormal", "class=biorthogonal", "class=general", "class=near_hermitian", "complex", "app=compose", "app=rmatvec", "app=right", "seqlen>=3", "mixed-dtype-vectors", "app=self-compose"]}
+ASSUMPTIONS = ["operands are dense numpy arrays, scipy sparse arrays, or scipy sparse matrices wrapped by aslinearoperator"]
+REQUIRED_CLASSES = {"all": ["class=orthonormal", "class=biorthogonal", "class=general", "class=near_hermitian", "complex", "app=compose", "app=rmatvec", "app=right", "seqlen>=3", "mixed-dtype-vectors", "app=self-compose", "app=sparse-operand"]}
 
 UNARY = ["T", "H", "conj", "adjoint", "transpose"]
 APPS = ["left_vec", "left_col", "left_mat", "right_vec", "right_mat", "matvec", "rmatvec", "matmat", "rmatmat",
         "PA", "AP", "PAP", "PAP_H", "PAP_T", "x_PAP", "PAP_rmatvec", "PAP_rmatmat", "PP", "AP_H_left",
         # the projector composed with itself (and with its own adjoint) AS OPERATORS: 1 - R L^dagger is idempotent only
         # when L^dagger R = 1, so for general L these composites differ from the projector
-        "PP_op", "PP_op_H", "x_PP_op", "PHP_op", "P_times_P"]
+        "PP_op", "PP_op_H", "x_PP_op", "PHP_op", "P_times_P",
+        # scipy-sparse operands handed to the projector directly (as the implicit mode does with sparse perturbations)
+        "left_spmat", "right_spmat", "PAP_spmat", "rmatmat_spmat"]
 
 
 @st.composite
@@ -106,6 +108,10 @@ def build_vectors(case):
     return R, M  # general: unconstrained left vectors
 
 
+def _dense(v):
+    return v.toarray() if hasattr(v, "toarray") else np.asarray(v)
+
+
 def check_case(case, enforce_all=False):
     from scipy import sparse
     from scipy.sparse.linalg import LinearOperator
@@ -159,6 +165,14 @@ def check_case(case, enforce_all=False):
                 got, exp = P @ X[:, :1], D @ X[:, :1]
             elif app == "left_mat":
                 got, exp = P @ xm, D @ xm
+            elif app == "left_spmat":
+                got, exp = _dense(P @ sparse.csr_array(xm)), D @ xm
+            elif app == "right_spmat":
+                got, exp = _dense(sparse.csr_array(ym) @ P), ym @ D
+            elif app == "PAP_spmat":
+                got, exp = _dense((P @ Aop @ P) @ sparse.csr_array(xm)), D @ A @ D @ xm
+            elif app == "rmatmat_spmat":
+                got, exp = _dense(P.rmatmat(sparse.csr_array(xm))), D.conj().T @ xm
             elif app == "right_vec":
                 got, exp = y @ P, y @ D
             elif app == "right_mat":
@@ -220,7 +234,8 @@ def check_case(case, enforce_all=False):
             return out
         group = {"PA": "compose", "AP": "compose", "PAP": "compose", "PAP_H": "compose", "PAP_T": "compose", "x_PAP": "compose",
                  "PAP_rmatvec": "compose", "PAP_rmatmat": "compose", "AP_H_left": "compose", "PP_op": "self-compose", "PP_op_H": "self-compose", "x_PP_op": "self-compose", "PHP_op": "self-compose",
-                 "P_times_P": "self-compose", "rmatvec": "rmatvec", "rmatmat": "rmatvec",
+                 "P_times_P": "self-compose", "left_spmat": "sparse-operand", "right_spmat": "sparse-operand", "PAP_spmat": "sparse-operand",
+                 "rmatmat_spmat": "sparse-operand", "rmatvec": "rmatvec", "rmatmat": "rmatvec",
                  "right_vec": "right", "right_mat": "right"}.get(app, "left")
         out.labels.append("app=" + group)
         if len(seq) >= 3:
